@@ -73,8 +73,9 @@ Proof. vm_compute. reflexivity. Qed.
 
 (* ---- back end: compile correctness on the models that are compared with the implementation on every run ----
 
-   Fragment (model/ScalarFrag.v, model/VarProg.v): straight-line programs over top-level variables - any number of
-   declarations `x := e`, assignments `x = e` and expression statements, whose expressions are built from integer /
+   Fragment (model/ScalarFrag.v, model/VarProg.v): programs over top-level variables - any number of declarations
+   `x := e`, assignments `x = e`, expression statements and conditionals `if c { ... } else { ... }` whose branches
+   are lists of assignments and expression statements -, whose expressions are built from integer /
    boolean / nil literals, variables declared earlier, prefix - and !, the arithmetic and comparison operators,
    short-circuit && and ||, and the conditional, at any nesting.  For the fragment, the emitted code ([cexp], [pcode])
    and the source-level result ([sev], [run_stmts]) are pure functions, and:
@@ -106,7 +107,8 @@ Require Import RV.proofs.VarCompileProofs.
 Theorem C01_back_compile_program : forall names, NoDup names -> forall l f,
   l <> nil -> ndecls l <= List.length names -> wf_stmts 0 l = true -> max_height l <= f ->
   compile_program (S f) nil (embed_stmts names 0 l) =
-  inr (Code main_id main_id false 0 (fst (pcode 0 0 l)) (snd (pcode 0 0 l)) nil nil nil, (root_tb names (ndecls l) :: nil)%list).
+  inr (Code main_id main_id false 0 (fst (pcode 0 0 l)) (snd (pcode 0 0 l)) nil nil nil,
+       (root_tb names (ndecls l) (nblocks l) :: blocks (nblocks l))%list).
 Proof. exact compile_var_program. Qed.
 
 (* (2) expressions: [env_ok] says that the environment binds the variables and the store holds their values rho *)
@@ -156,10 +158,11 @@ Theorem C01_var_programs : forall names, NoDup names -> Forall (fun nm => nm <> 
     agree (fst (Sem.run fs (embed_stmts names 0 l))) (VM.run (n + S f) c tabs ng nil).
 Proof. exact var_programs_end_to_end. Qed.
 
-(* Non-vacuity: a := 7; b := a * 2; a = b - 15; a < 0 ? 1 / a : b    (= -1 ... integer division: 1 / -1 = -1) *)
+(* Non-vacuity: a := 7; b := a * 2; if b > 10 { a = b - 15; a } else { b = 0 }; a < 0 ? 1 / a : b     (= -1) *)
 Definition ex_names : list (list N) := ((97 :: nil) :: (98 :: nil) :: nil)%N.
 Definition ex_prog : list stmt :=
-  (SDecl (SInt 7) :: SDecl (SBin BMul (SVar 0) (SInt 2)) :: SSet 0 (SBin BSub (SVar 1) (SInt 15)) ::
+  (SDecl (SInt 7) :: SDecl (SBin BMul (SVar 0) (SInt 2)) ::
+   SIf (SBin CGt (SVar 1) (SInt 10)) (MSet 0 (SBin BSub (SVar 1) (SInt 15)) :: MExpr (SVar 0) :: nil) (MSet 1 (SInt 0) :: nil) ::
    SExpr (STern (SBin CLt (SVar 0) (SInt 0)) (SBin BDiv (SInt 1) (SVar 0)) (SVar 1)) :: nil)%list.
 Example C01_var_program_example :
   wf_stmts 0 ex_prog = true /\ ndecls ex_prog = 2%nat /\ run_stmts nil ex_prog ScalarFrag.VNil = inl (ScalarFrag.VInt (-1)) /\
